@@ -136,11 +136,18 @@ def build_model(g, cls=None):
 
 
 def build_teams(model, g, names=True):
+    """integral values are handed over as Python ints every other player (rating(mu=30, sigma=2) is ordinary use; the type of a
+    value must not matter)"""
     teams = []
     k = 0
     for t in g["teams"]:
         team = []
         for (m, s) in t:
+            if k % 2 == 0 and float(m).is_integer() and abs(m) < 2 ** 53:
+                m = int(m)
+                CALL_STATS["int_typed_values"] = CALL_STATS.get("int_typed_values", 0) + 1
+            if k % 2 == 0 and float(s).is_integer() and abs(s) < 2 ** 53:
+                s = int(s)
             team.append(model.rating(mu=m, sigma=s, name=("p%d" % k) if names else None))
             k += 1
         teams.append(team)
